@@ -514,15 +514,15 @@ Section Transformers.
     apply append_one_spec in H as [-> _]. reflexivity.
   Qed.
 
-  Lemma run_gens_framed secret gens : forall srcs m m',
+  Lemma run_gens_framed go secret gens : forall srcs m m',
     Forall creates gens ->
-    Forall2 framed srcs m -> run_gens nonstr secret gens m = Ok m' ->
+    Forall2 framed srcs m -> run_gens nonstr go secret gens m = Ok m' ->
     exists k, Forall2 framed (srcs ++ repeat None k) m'.
   Proof.
     induction gens as [|g t IH]; intros srcs m m' Hc HF H; cbn [run_gens] in H.
     - inv H. exists 0. cbn. now rewrite app_nil_r.
     - inversion Hc as [|? ? Hg Ht]; subst.
-      destruct (gen_resource secret g) as [r| | |] eqn:EG; cbn [bind] in H; try discriminate.
+      destruct (gen_resource secret (merge_genopts go g)) as [r| | |] eqn:EG; cbn [bind] in H; try discriminate.
       destruct (absorb nonstr m _ r) as [m1| | |] eqn:EA; cbn [bind] in H; try discriminate.
       apply (absorb_create_spec _ _ _ _ Hg) in EA. subst m1.
       assert (HF1 : Forall2 framed (srcs ++ [None]) (m ++ [r])).
@@ -542,8 +542,8 @@ Section Transformers.
     - inv H. exists 0. cbn. now rewrite app_nil_r.
     - match type of H with bind ?E _ = _ => destruct E as [mm| | |] eqn:E1 end; cbn [bind] in H; try discriminate.
       assert (exists k1, Forall2 framed (srcs ++ repeat None k1) mm) as (k1 & H1).
-      { destruct (String.eqb k "ConfigMapGenerator"); [exact (run_gens_framed _ _ _ _ _ Hc1 HF E1)|].
-        destruct (String.eqb k "SecretGenerator"); [exact (run_gens_framed _ _ _ _ _ Hc2 HF E1)|].
+      { destruct (String.eqb k "ConfigMapGenerator"); [exact (run_gens_framed _ _ _ _ _ _ Hc1 HF E1)|].
+        destruct (String.eqb k "SecretGenerator"); [exact (run_gens_framed _ _ _ _ _ _ Hc2 HF E1)|].
         inv E1. exists 0. cbn. now rewrite app_nil_r. }
       destruct (IH _ _ _ H1 H) as (k2 & H2). exists (k1 + k2). rewrite <- app_assoc, <- repeat_app in H2. exact H2.
   Qed.
